@@ -3,9 +3,11 @@
 package core
 
 import (
+	"cmp"
 	"encoding/json"
 	"fmt"
 	"math/rand/v2"
+	"slices"
 	"sort"
 	"testing"
 )
@@ -60,6 +62,17 @@ func (r *Result) Add(name string, n int) {
 		r.Stats = map[string]int{}
 	}
 	r.Stats[name] += n
+}
+
+// SortedKeys returns the keys of m in ascending order: verdicts must not depend
+// on Go's map iteration order (one seed = one outcome, message included).
+func SortedKeys[K cmp.Ordered, V any](m map[K]V) []K {
+	keys := make([]K, 0, len(m))
+	for k := range m {
+		keys = append(keys, k)
+	}
+	slices.Sort(keys)
+	return keys
 }
 
 // Prop is one property's simulation harness.
